@@ -409,8 +409,25 @@ Fixpoint fn_equiv_mod_existence (fuel : nat) (f : fnode) (t : rtree) : bool :=
                             | Some cf => fn_equiv_mod_existence fu cf (snd nk)
                             | None => rt_is_empty fu (snd nk) end) (rt_kids t)
   end.
+(* a batch without a single key operation at any depth: it only creates
+   (empty) or deletes child collections *)
+Fixpoint tb_opless (fuel : nat) (b : tbatch) : bool :=
+  match fuel with
+  | O => false
+  | S fu => match b with
+            | TB ops kids =>
+                Nat.eqb (length ops) 0 &&
+                forallb (fun nk => match snd nk with None => true | Some c => tb_opless fu c end) kids
+            end
+  end.
+(* known finding F10b, identified by its cause: everything the store does not
+   reflect yet is a suffix of operation-less batches (the store reads as the
+   reference after the first n batches, existence of empty children aside) *)
+Fixpoint pending_opless_search (all : list tbatch) (store : fnode) (n : nat) : bool :=
+  (forallb (tb_opless 8) (skipn n all) && fn_equiv_mod_existence 8 store (ref_tree (firstn n all)))
+  || match n with O => false | S m => pending_opless_search all store m end.
 Definition zero_gauges_existence_only (dirty_ops dirty_segs : nat) (store : fnode) (r : trs) : bool :=
-  fn_equiv_mod_existence 8 store (tref_now r).
+  pending_opless_search (tall r) store (length (tall r)).
 
 (* C07: what a full compaction must leave in every collection of the footer
    tree: at most one segment, keys strictly ascending, no deletion marker *)
